@@ -53,3 +53,12 @@ CORPUS += [
 CORPUS += [
     M("connection-lost-cancels-tasks", D, "        self._discovered_ips.add(ip)\n", "        self._discovered_ips.add(ip)\n        for t in self.tasks:\n            t.cancel()\n"),
 ]
+# round 10: growth - a registry of devices shared between replies; a new field formatted from a window of unknown length
+CORPUS += [
+    M("device-registry-shared", D, "        dev = device_class(**info)\n", "        dev = device_class(**info)\n        cls._devices[info[\"device_id\"]] = dev\n"),
+    M("registry-setdefault", D, "        dev = device_class(**info)\n", "        dev = cls._devices.setdefault(info[\"device_id\"], device_class(**info))\n"),
+    M("mac-formatted-from-short-window", D, "                device_type = int(name.split(\"_\")[1], 16)\n",
+      "                device_type = int(name.split(\"_\")[1], 16)\n                off = 41 + name_length\n                if len(decrypted_mv) > off:\n                    sn = \"%02x:%02x\" % tuple(decrypted_mv[off+2:off+4])\n"),
+    M("n-mac-formatted-from-full-window", D, "                device_type = int(name.split(\"_\")[1], 16)\n",
+      "                device_type = int(name.split(\"_\")[1], 16)\n                off = 41 + name_length\n                if len(decrypted_mv) >= off + 4:\n                    sn = \"%02x:%02x\" % tuple(decrypted_mv[off+2:off+4])\n", "S"),
+]
